@@ -37,7 +37,10 @@ def install():
         if _state["feed_calls"] is not None:
             rec = {"type": self.animal_type, "rum": bool(is_ruminant), "g0": float(grass_input.kcals), "f0": float(feed_input.kcals),
                    "req": float(self.NE_balance.kcals), "herd": float(self.current_population), "fed_before": float(self.population_fed),
-                   "eg": self.digestion_efficiency["grass"], "ef": self.digestion_efficiency["feed"], "digestion": self.digestion_type}
+                   "eg": self.digestion_efficiency["grass"], "ef": self.digestion_efficiency["feed"], "digestion": self.digestion_type,
+                   # the requirement from the species' own attributes at the time of the call: livestock units x regional factor x
+                   # 29000 MJ net energy per livestock unit and year (INRAE 2021), in billion kcal per month, x head count
+                   "req_attr": float(self.livestock_unit) * float(self.LSU_factor) * (29000.0 / 12.0 / 4.187 * 1000.0 / 1e9) * float(self.current_population)}
         out = orig_feed(self, grass_input, feed_input, is_ruminant)
         if rec is not None:
             rec.update(g1=float(out[0].kcals), f1=float(out[1].kcals), bal=float(self.NE_balance.kcals), fed=float(self.population_fed))
